@@ -1,14 +1,21 @@
 """C03 - decoders accept exactly the valid encodings and return the encoded value.
 
 Three decoders of the real crate (raw validation VR, dynamic Param decoder UP, typed decoder UT through the
-catalogue types) run on (1) valid encodings produced by the extracted SPECIFICATION encoder, (2) single-fault
-corruptions of those, (3) random bytes under catalogue signatures; at offsets 0..15, both byte orders.
+catalogue types - including the borrowing ones Cow<[E]>, &[u8], &str and raw f64 with its memcpy path) run on
+(1) valid encodings produced by the extracted SPECIFICATION encoder, (2) single-fault corruptions of those: one of
+every class that applies to the value (wiregen.CORRUPTION_CLASSES, aimed with a layout of the encoding), (3) random
+bytes under catalogue signatures, (4) "big": encodings with length fields >= 64 KiB, long strings, 64+ containers
+in one array, nesting at the limits; at offsets 0..15, both byte orders.
 Verdicts are justified by the extracted specification directly (never by the decoder models):
   * accepted  => the bytes consumed equal spec_enc of the returned value and the value is encodable
   * a valid encoding (stream 1, or a corrupted input that the model decodes to a value whose spec encoding is
     exactly the input slice) => accepted by all three decoders with that value and length
   * the three decoders agree (typed may additionally refuse a variant whose content type differs from the Rust type)
 The decoder models (coq/Wire/Decode.v, Unmarshal.v) are compared on every case as the tie for the theorems.
+(5) "glue": bodies built from arbitrary (signature, bytes) with MarshalledMessageBody::from_parts: validate() must be
+"every top-level value validates and all bytes are used", MarshalledMessage::unmarshall_all and
+wire::unmarshal::unmarshal_body must accept exactly the same bodies (D30) and return what the dynamic decoder returns
+for every type of the signature in turn.
 """
 import os
 
@@ -19,6 +26,8 @@ from checks.c02 import fields
 
 def split_res(line):
     """'ok <n> <tokens...>' / 'ok <n>' / 'err' / other"""
+    if line is None:
+        return None, None, ""
     parts = line.split(" ")
     if parts and parts[-1].startswith("#"):          # "#cow=b<n>o<m>": informational note of the harness, not part of the value
         parts = parts[:-1]
@@ -27,15 +36,24 @@ def split_res(line):
     return parts[0], None, ""
 
 
+def cow_note(line):
+    parts = line.split(" ")
+    if parts and parts[-1].startswith("#cow=b"):
+        b, o = parts[-1][6:].split("o")
+        return int(b), int(o)
+    return 0, 0
+
+
 def run(ctx):
     thorough = ctx.tier == "thorough"
-    ctx.rule = ("case = (decoder VR|UP|UT, byte order, offset 0..15, signature / catalogue type, bytes); bytes are valid "
-                "encodings from the specification encoder, single-fault corruptions of them (non-zero padding, lengths +-k, "
-                "booleans, terminators, UTF-8, truncation at many positions, extension) or random; non-trivial = the type has a "
-                "container or a text leaf, or the input is a corruption; distinct = distinct case lines")
+    ncat = len(wg.catalogue())
     ctx.trusted = ["Coq 8.16.1 kernel", "extraction (ExtrOcamlBasic only) + ocaml/wire/driver.ml", "harness wire binary and catalogue",
                    "Wire/SpecEnc.v as my reading of the D-Bus wire format"]
-    ctx.assumptions = ["usize 64 bit, native little endian", "typed decoder exercised through the 271 catalogue types"]
+    ctx.assumptions = ["usize 64 bit, native little endian", "typed decoder exercised through the %d catalogue types (and %d deeply nested ones in the big stream)"
+                       % (ncat, len(wg.catalogue_deep())),
+                       "big stream: the decoder models are run only where they are fast enough (raw validation always; typed decoder on the memcpy "
+                       "path; everything below 3000 tokens); elsewhere the implementation is compared with the known encoded value and the specification",
+                       "glue stream: bodies carry no descriptors"]
     if not os.environ.get("VERIF_SKIP_PROOF"):
         ctx.try_proof()
     exe = vlib.harness_build(["wire"])["wire"]
@@ -43,73 +61,133 @@ def run(ctx):
     drv = vlib.ocaml_build("wire")
     r = ctx.sub_rng("c03")
     cat = wg.catalogue()
-    per_type = 10 if thorough else 2
+    per_type = 6 if thorough else 2
+    import time
+    stages = ctx.extra.setdefault("stage_seconds", {})
+    t_last = [time.time()]
+
+    def stage(name):
+        stages[name] = round(time.time() - t_last[0], 1)
+        t_last[0] = time.time()
 
     # ---- step 1: values -> specification bytes
-    vals = []
+    vals = []         # (ty, t, bo, off, nf, toks, big class or None)
     for ty in cat:
         t = wg.parse_ext(ty)
-        if wg.count_leaves(t, "h"):
-            nf = 3
-        else:
-            nf = 0
+        nf = 3 if wg.count_leaves(t, "h") else 0
         for i in range(per_type):
             bo = r.choice(["le", "be"])
             off = r.randrange(16)
             toks, _ = wg.gen_value(r, t, bad=False)
             # descriptor leaves on the wire are indices
             toks = wg.renumber_fds(toks, 3)
-            vals.append((ty, t, bo, off, nf, toks))
-    ok, spec_out, err = vlib.par_run_lines(drv, [], ["SE %s %d %s" % (bo, off, " ".join(toks)) for (_, _, bo, off, _, toks) in vals])
+            vals.append((ty, t, bo, off, nf, toks, None))
+    nsmall = len(vals)
+    rb = ctx.sub_rng("c03-big")
+    for cls, ty, toks in wg.big_cases(rb, thorough):
+        for bo in ("le", "be"):
+            vals.append((ty, wg.parse_ext(ty), bo, rb.randrange(16), 0, toks, cls))
+    se_lines = ["SE %s %d %s" % (bo, off, " ".join(toks)) for (_, _, bo, off, _, toks, _) in vals]
+    ok, spec_out, err = vlib.par_run_lines(drv, [], se_lines[:nsmall])
+    if ok:
+        ok, so2, err = wg.run_each(drv, se_lines[nsmall:], chunk=2)
+        spec_out = spec_out + so2
     if not ok:
         ctx.tie_broken("extracted specification crashed", err)
         return
 
+    stage("specification encodings")
     # ---- step 2: inputs
-    cases = []     # (kind, ty, t, bo, off, nf, hex bytes, expected tokens or None)
-    for (ty, t, bo, off, nf, toks), so in zip(vals, spec_out):
+    cases = []     # (kind, ty, t, bo, off, nf, bytes, expected tokens or None, expected length, big?)
+    for (ty, t, bo, off, nf, toks, cls), so in zip(vals, spec_out):
         f = fields("x " + so)
         if f.get("encodable") != "true":
+            if cls:
+                ctx.tie_broken("generator: a big value is not encodable", "%s %s %s" % (cls, ty, so[:200]))
             continue
         enc = bytes.fromhex(f["spec"]) if f["spec"] != "-" else b""
         pre = bytes((7 * i + 3) % 251 for i in range(off))
-        cases.append(("valid", ty, t, bo, off, nf, pre + enc, " ".join(toks), len(enc)))
+        if cls:
+            big_tokens[(ty, bo, off)] = toks
+            cases.append(("big:" + cls, ty, t, bo, off, nf, pre + enc, " ".join(toks), len(enc), True))
+            # the FIRST length field of a big encoding (the big one): off by a little, and beyond the limit
+            order = "big" if bo == "be" else "little"
+            firstlen = next((i for i in range(0, min(len(enc) - 3, 24)) if (off + i) % 4 == 0 and int.from_bytes(enc[i:i + 4], order) >= 250), None)
+            if firstlen is not None:
+                v = int.from_bytes(enc[firstlen:firstlen + 4], order)
+                for name, nv, tail in (("len-1", v - 1, b""), ("len+1", v + 1, b"\x00"), ("len-8", v - 8, b""), ("len+8", v + 8, bytes(8)),
+                                       ("len=2^26+1", (1 << 26) + 1, b"")):
+                    b = bytearray(enc)
+                    b[firstlen:firstlen + 4] = nv.to_bytes(4, order)
+                    cases.append(("big-corrupt:" + name, ty, t, bo, off, nf, pre + bytes(b) + tail, None, None, True))
+            continue
+        cases.append(("valid", ty, t, bo, off, nf, pre + enc, " ".join(toks), len(enc), False))
         suffix = bytes([r.randrange(256) for _ in range(r.choice([0, 1, 3, 8]))])
         if suffix:
-            cases.append(("valid+suffix", ty, t, bo, off, nf, pre + enc + suffix, " ".join(toks), len(enc)))
-        for kind, cb in wg.corruptions(r, enc, limit=10 if thorough else 5):
-            cases.append(("corrupt:" + kind.split("@")[0], ty, t, bo, off, nf, pre + cb, None, None))
+            cases.append(("valid+suffix", ty, t, bo, off, nf, pre + enc + suffix, " ".join(toks), len(enc), False))
+        for kind, cb in wg.aimed_corruptions(r, bo == "be", off, toks, enc, extra=8 if thorough else 4, all_padding=thorough):
+            if kind == "layout-differs":
+                ctx.count("layout-differs (corruptions of this value are not aimed)")
+                continue
+            cases.append(("corrupt:" + kind, ty, t, bo, off, nf, pre + cb, None, None, False))
     for _ in range(4000 if thorough else 400):
         ty = r.choice(cat)
         t = wg.parse_ext(ty)
         off = r.randrange(8)
         n = r.choice([0, 1, 4, 8, 12, 16, 24, 40])
         b = bytes(r.choice([0, 0, 0, 1, 4, 8, r.randrange(256)]) for _ in range(off + n))
-        cases.append(("random", ty, t, r.choice(["le", "be"]), off, 2, b, None, None))
+        cases.append(("random", ty, t, r.choice(["le", "be"]), off, 2, b, None, None, False))
 
     lines = []
-    for kind, ty, t, bo, off, nf, b, exp, explen in cases:
+    for kind, ty, t, bo, off, nf, b, exp, explen, isbig in cases:
         sig = wg.erased(t)
         hexb = b.hex() or "-"
         lines.append("VR %s %d %s %s" % (bo, off, sig, hexb))
         lines.append("UP %s %d %d %s %s" % (bo, off, nf, sig, hexb))
         lines.append("UT %s %s %d %d %d %s" % (ty, bo, off, nf, r.randrange(8), hexb))
-    ok, impl, err = vlib.par_run_lines(exe, [], lines, robust=True)
+    stage("generate inputs")
+    small_idx = [3 * ci + k for ci, c in enumerate(cases) if not c[9] for k in range(3)]
+    big_idx = [3 * ci + k for ci, c in enumerate(cases) if c[9] for k in range(3)]
+    impl = [None] * len(lines)
+    model = [None] * len(lines)
+    ok, out, err = vlib.par_run_lines(exe, [], [lines[i] for i in small_idx], robust=True)
+    if ok:
+        for i, o in zip(small_idx, out):
+            impl[i] = o
+        ok, out, err = wg.run_each(exe, [lines[i] for i in big_idx], robust=True, chunk=6)
+        for i, o in zip(big_idx, out):
+            impl[i] = o
     if not ok:
         ctx.tie_broken("wire harness crashed (a decoder aborted?)", err)
         return
-    ok, model, err = vlib.par_run_lines(drv, [], lines)
+    stage("implementation")
+    ok, out, err = vlib.par_run_lines(drv, [], [lines[i] for i in small_idx])
+    stage("model")
+    if ok:
+        for i, o in zip(small_idx, out):
+            model[i] = o
+        # big: raw validation always; the others only where the extracted model is fast enough (size of the VALUE the bytes were made from)
+        cheap = []
+        for i in big_idx:
+            c = cases[i // 3]
+            op = ("VR", "UP", "UT")[i % 3]
+            if wg.model_cheap(op, c[3], big_tokens[(c[1], c[3], c[4])]):
+                cheap.append(i)
+        ok, out, err = wg.run_each(drv, [lines[i] for i in cheap], chunk=3)
+        for i, o in zip(cheap, out):
+            model[i] = o
     if not ok:
         ctx.tie_broken("extracted decoder model crashed", err)
         return
 
+    stage("model (big)")
     # ---- step 2b: a variant may hold a descriptor although the requested type names none (a corrupted inner
     # signature); validate_raw cannot know the number of descriptors, so "validate ok, decoders refuse" is allowed by
     # the property exactly when the encoded value holds a descriptor index that is not below the message's count
     # (C03_agree_param_fds has that hypothesis). Decide it by decoding with an unbounded descriptor count (model).
     dyn_fd = set()
-    sus = [ci for ci, (kind, ty, t, bo, off, nf, b, exp, explen) in enumerate(cases)
-           if wg.count_leaves(t, "h") == 0 and "v" in wg.erased(t)
+    sus = [ci for ci, c in enumerate(cases)
+           if wg.count_leaves(c[2], "h") == 0 and "v" in wg.erased(c[2]) and not c[9]
            and split_res(impl[3 * ci])[0] == "ok" and split_res(impl[3 * ci + 1])[0] == "err"]
     if sus:
         sl = []
@@ -131,7 +209,10 @@ def run(ctx):
     # ---- step 3: for every value the MODEL decodes (wire order, duplicates kept) ask the specification what its
     # encoding is; the implementation's values are maps, so they are compared with the canonical form of the model's
     se_lines, se_index = [], {}
-    for ci, (kind, ty, t, bo, off, nf, b, exp, explen) in enumerate(cases):
+    for ci, c in enumerate(cases):
+        bo, off, isbig = c[3], c[4], c[9]
+        if isbig and c[7] is not None:
+            continue                     # a big valid encoding: the value is known, nothing to ask
         for k in (1, 2):
             for outs in (model, impl):
                 st, n, toks = split_res(outs[3 * ci + k])
@@ -142,25 +223,47 @@ def run(ctx):
                     if key not in se_index:
                         se_index[key] = len(se_lines)
                         se_lines.append("SE %s %d %s" % (bo, off, toks))
-    ok, se_out, err = vlib.par_run_lines(drv, [], se_lines)
+    small_se = [i for i, l in enumerate(se_lines) if len(l) < 20000]
+    big_se = [i for i, l in enumerate(se_lines) if len(l) >= 20000]
+    se_out = [None] * len(se_lines)
+    ok, out, err = vlib.par_run_lines(drv, [], [se_lines[i] for i in small_se])
+    if ok:
+        for i, o in zip(small_se, out):
+            se_out[i] = o
+        ok, out, err = wg.run_each(drv, [se_lines[i] for i in big_se], chunk=2)
+        for i, o in zip(big_se, out):
+            se_out[i] = o
     if not ok:
         ctx.tie_broken("extracted specification crashed on decoded values", err)
         return
+
+    stage("specification of decoded values")
 
     def spec_of(bo, off, toks):
         f = fields("x " + se_out[se_index[(bo, off, toks)]])
         return (bytes.fromhex(f["spec"]) if f["spec"] != "-" else b""), f["encodable"] == "true"
 
-    for ci, (kind, ty, t, bo, off, nf, b, exp, explen) in enumerate(cases):
+    for ci, (kind, ty, t, bo, off, nf, b, exp, explen, isbig) in enumerate(cases):
         vr_i, up_i, ut_i = impl[3 * ci], impl[3 * ci + 1], impl[3 * ci + 2]
         vr_m, up_m, ut_m = model[3 * ci], model[3 * ci + 1], model[3 * ci + 2]
         nontrivial = kind != "valid" or t[0] != "b" or t[1] in "sog"
-        ctx.case(lines[3 * ci], nontrivial=nontrivial,
-                 sample={"case": lines[3 * ci + 1][:160], "VR": vr_i, "UP": up_i[:80], "UT": ut_i[:80]} if ctx.evaluations % 211 == 0 else None)
+        canon = lines[3 * ci] if not isbig else (kind, ty, bo, off, len(b), hash(b))
+        ctx.case(canon, nontrivial=nontrivial,
+                 sample={"case": lines[3 * ci + 1][:160], "VR": vr_i, "UP": up_i[:80], "UT": ut_i[:80]} if ctx.evaluations % 3001 == 0 else None)
         ctx.evaluations += 2
         ctx.count("kind:" + kind)
         ctx.count("bo:" + bo)
         ctx.count("off%8=" + str(off % 8))
+        if kind in ("valid", "valid+suffix") or isbig:
+            for fl in wg.flavours(ty):
+                ctx.count("rust-flavour:" + fl)
+        cb, co = cow_note(ut_i)
+        if cb or co:
+            ctx.count("cow-borrowed", cb)
+            ctx.count("cow-owned", co)
+        for nm, mo in (("VR", vr_m), ("UP", up_m), ("UT", ut_m)):
+            if mo is None:
+                ctx.count("big:model-skipped:" + nm)
         s_vr, n_vr, _ = split_res(vr_i)
         s_up, n_up, v_up = split_res(up_i)
         s_ut, n_ut, v_ut = split_res(ut_i)
@@ -173,7 +276,7 @@ def run(ctx):
         st_mt, n_mt, v_mt = split_res(ut_m)
         has_fd = wg.count_leaves(t, "h") > 0 or ci in dyn_fd
         witness_missing = False
-        if why is None:
+        if why is None and not (isbig and exp is not None):
             # soundness: whatever is accepted is the specification's encoding of the returned value. The witness for
             # "some ordering of the returned map encodes to these bytes" is the model's wire-order value.
             for name, st, n, v, stm, nm, vm in (("Param decoder", s_up, n_up, v_up, st_mp, n_mp, v_mp),
@@ -186,11 +289,14 @@ def run(ctx):
                             if sb != b[off:off + n] or not enc_ok:
                                 why = "%s accepted bytes that are not the encoding of the value it returned" % name
                                 continue
+                            if stm is None:
+                                continue               # model not run (cost): the specification has spoken
                         witness_missing = True
                         continue
                     sb, enc_ok = spec_of(bo, off, vm)
                     if sb != b[off:off + n] or not enc_ok:
                         why = "%s accepted bytes that are not the encoding of the value it returned" % name
+        if why is None:
             if s_vr == "ok" and s_up == "ok" and n_vr != n_up:
                 why = "validate_raw and the Param decoder report different lengths"
             if s_vr != s_up and not (has_fd and s_vr == "ok"):
@@ -210,19 +316,158 @@ def run(ctx):
             sb, enc_ok = spec_of(bo, off, v_mp)
             if sb == b[off:off + n_mp] and enc_ok:
                 why = "decoders reject bytes that are a valid encoding"
+        data = {"lines": [l if len(l) < 3000 else l[:3000] + " ...(%d characters; regenerate with the seed)" % len(l) for l in lines[3 * ci:3 * ci + 3]],
+                "impl": [x[:3000] for x in (vr_i, up_i, ut_i)], "model": [(x or "not run")[:3000] for x in (vr_m, up_m, ut_m)], "kind": kind}
         if why is None and witness_missing:
             ctx.disagreements_checked += 1
             ctx.tie_broken("correspondence: the implementation accepted an input the decoder model rejects or decodes differently",
-                           "%s\nimpl: %s\nmodel: %s" % (lines[3 * ci + 1], [vr_i, up_i, ut_i], [vr_m, up_m, ut_m]))
+                           "%s\nimpl: %s\nmodel: %s" % (data["lines"][1], data["impl"], data["model"]))
             continue
         if why:
             ctx.disagreements_checked += 1
-            ctx.violation(why, {"lines": lines[3 * ci:3 * ci + 3], "impl": [vr_i, up_i, ut_i], "model": [vr_m, up_m, ut_m], "kind": kind})
-        elif (vr_i, wg.canon(v_up) if s_up == "ok" else up_i, wg.canon(v_ut) if s_ut == "ok" else ut_i, n_up, n_ut) != \
-                (vr_m, wg.canon(v_mp) if st_mp == "ok" else up_m, wg.canon(v_mt) if st_mt == "ok" else ut_m, n_mp, n_mt):
+            ctx.violation(why, data)
+            continue
+        ci_cmp = []
+        mo_cmp = []
+        if vr_m is not None:
+            ci_cmp.append(vr_i)
+            mo_cmp.append(vr_m)
+        if up_m is not None:
+            ci_cmp += [wg.canon(v_up) if s_up == "ok" else up_i, n_up]
+            mo_cmp += [wg.canon(v_mp) if st_mp == "ok" else up_m, n_mp]
+        if ut_m is not None:
+            ci_cmp += [wg.canon(v_ut) if s_ut == "ok" else split_res(ut_i)[0], n_ut]
+            mo_cmp += [wg.canon(v_mt) if st_mt == "ok" else ut_m, n_mt]
+        if ci_cmp != mo_cmp:
             ctx.disagreements_checked += 1
             ctx.tie_broken("correspondence: decoder models and implementation differ on a case the specification checks pass",
-                           "%s\nimpl: %s\nmodel: %s" % (lines[3 * ci + 2], [vr_i, up_i, ut_i], [vr_m, up_m, ut_m]))
+                           "%s\nimpl: %s\nmodel: %s" % (data["lines"][2], data["impl"], data["model"]))
+
+    stage("verdicts")
+    nglue = glue(ctx, exe, drv, thorough)
+    stage("glue")
+    classes = sorted(k[len("kind:corrupt:"):] for k in ctx.histogram if k.startswith("kind:corrupt:"))
+    missing = [c for c in wg.CORRUPTION_CLASSES if c not in classes]
+    ctx.extra["corruption_classes"] = {"applied": {c: ctx.histogram["kind:corrupt:" + c] for c in classes}, "never applied in this run": missing}
+    if missing:
+        ctx.tie_broken("generator: corruption classes never applied", ", ".join(missing))
+    ctx.rule = ("case = (decoder VR|UP|UT, byte order, offset 0..15, signature / catalogue type, bytes). Stream 1: valid encodings from the specification "
+                "encoder, %d values for each of the %d catalogue types, with and without trailing bytes. Stream 2: single-fault corruptions of them - every "
+                "value gets one corruption of EVERY class that applies to it (%d classes: padding positions non-zero (up to 4 per value, all in thorough), "
+                "length fields +-1 +-4 +-8 and 2^26+1, boolean 2 / other, NUL inside a string, non-zero terminator, signature length +-1, a variant's "
+                "signature replaced by another type of the same / another alignment, by two types, by the empty and by an invalid signature, plus "
+                "untargeted zero-flips, bumps, length overwrites, off-by-a-few lengths, truncations, UTF-8 faults, extension); per-class counts are in "
+                "corruption_classes. Stream 3: random bytes. Stream 4 (big): length fields >= 64 KiB, strings of 255..70000 bytes, 64..100 containers in "
+                "one array/dict, nesting at the limits, valid and with the big length field off by 1 / 8 / beyond 2^26. Stream 5 (glue, %d bodies): "
+                "validate(), unmarshall_all, unmarshal_body on bodies from from_parts: valid, with trailing bytes, truncated, corrupted, signature with "
+                "one type more or less. non-trivial = the type has a container or a text leaf, or the input is a corruption; distinct = distinct case lines"
+                % (per_type, ncat, len(classes), nglue))
+
+
+big_tokens = {}        # (type, byte order, offset) of a big case -> the value's tokens (to estimate the model's cost)
+
+
+def glue(ctx, exe, drv, thorough):
+    """MarshalledMessageBody::validate(), MarshalledMessage::unmarshall_all and wire::unmarshal::unmarshal_body on bodies built
+    with from_parts from (signature, bytes). The property predicate is evaluated on the implementation's own single-value decoders
+    (checked against the specification by the streams above): validate() = every type of the signature validates in turn from
+    offset 0 AND all bytes are used; unmarshall_all / unmarshal_body accept exactly then too (D30: they used to ignore bytes after
+    the last value) and return the values of the dynamic decoder on every type in turn."""
+    r = ctx.sub_rng("c03-glue")
+    cat = [ty for ty in wg.catalogue() if not wg.count_leaves(wg.parse_ext(ty), "h")]
+    nbodies = 1500 if thorough else 300
+    bodies = []       # (bo, [types], [toks])
+    for _ in range(nbodies):
+        k = r.choice([0, 1, 1, 2, 2, 3])
+        tys = [r.choice(cat) for _ in range(k)]
+        bodies.append((r.choice(["le", "be"]), tys, [wg.gen_value(r, wg.parse_ext(ty))[0] for ty in tys]))
+    # the body bytes: value i is encoded at the offset where value i-1 ended (rounds of specification calls)
+    bufs = [b""] * nbodies
+    for rnd in range(3):
+        idx = [i for i, (bo, tys, vs) in enumerate(bodies) if len(tys) > rnd]
+        ok, out, err = vlib.par_run_lines(drv, [], ["SE %s %d %s" % (bodies[i][0], len(bufs[i]), " ".join(bodies[i][2][rnd])) for i in idx])
+        if not ok:
+            ctx.tie_broken("extracted specification crashed (glue)", err)
+            return 0
+        for i, o in zip(idx, out):
+            f = fields("x " + o)
+            bufs[i] += bytes.fromhex(f["spec"]) if f["spec"] != "-" else b""
+    cases = []        # (kind, bo, sig, bytes, known: True = valid whole body, False = known invalid, None = decided by the single-value decoders)
+    for (bo, tys, vs), buf in zip(bodies, bufs):
+        sig = "".join(wg.erased(wg.parse_ext(ty)) for ty in tys)
+        if len(sig) > 255:
+            continue
+        cases.append(("valid", bo, sig, buf, True))
+        cases.append(("trailing", bo, sig, buf + bytes(r.choice([0, 0, 1, 7, r.randrange(256)]) for _ in range(r.choice([1, 1, 2, 4, 8]))), None))
+        if buf:
+            cases.append(("truncated", bo, sig, buf[:r.randrange(len(buf))], None))
+            for kind, cb in wg.corruptions(r, buf, limit=2):
+                cases.append(("corrupt", bo, sig, cb, None))
+        more = wg.erased(wg.parse_ext(r.choice(cat)))
+        cases.append(("signature+1", bo, sig + more, buf, None))
+        if len(tys) > 1:
+            cases.append(("signature-1", bo, "".join(wg.erased(wg.parse_ext(ty)) for ty in tys[:-1]), buf, None))
+    cases.append(("empty", "le", "", b"", True))
+    cases.append(("empty", "be", "", b"", True))
+    cases.append(("trailing", "le", "", b"\x07\x07", None))
+    lines = []
+    for kind, bo, sig, buf, known in cases:
+        sh, bh = sig.encode().hex() or "-", buf.hex() or "-"
+        lines.append("BV %s 0 %s %s" % (bo, sh, bh))
+        lines.append("BA %s 0 %s %s" % (bo, sh, bh))
+        lines.append("BB %s 0 0 %s %s" % (bo, sh, bh))
+        # the single-value decoders on the same input (an empty signature has no types: nothing to run)
+        lines.append("VR %s 0 %s %s" % (bo, sig, bh) if sig else "CAT")
+        lines.append("UP %s 0 0 %s %s" % (bo, sig, bh) if sig else "CAT")
+    ok, out, err = vlib.par_run_lines(exe, [], lines, robust=True)
+    if not ok:
+        ctx.tie_broken("wire harness crashed (glue)", err)
+        return 0
+    ok, mout, err = vlib.par_run_lines(drv, [], [l if l[:2] in ("VR", "UP") else "SE le 0 y 0" for l in lines])
+    if not ok:
+        ctx.tie_broken("extracted decoder model crashed (glue)", err)
+        return 0
+    for ci, (kind, bo, sig, buf, known) in enumerate(cases):
+        bv, ba, bb, vr, up = out[5 * ci:5 * ci + 5]
+        ctx.case(("glue", lines[5 * ci]), nontrivial=True, sample={"case": lines[5 * ci][:160], "validate": bv, "unmarshall_all": ba[:80]} if ci % 997 == 0 else None)
+        ctx.evaluations += 2
+        ctx.count("glue:" + kind)
+        if sig:
+            s_vr, n_vr, _ = split_res(vr)
+            s_up, n_up, v_up = split_res(up)
+        else:
+            s_vr, n_vr, s_up, n_up, v_up = "ok", 0, "ok", 0, ""
+        why = None
+        if any(x.split(" ")[0] not in ("ok", "err") for x in (bv, ba)) or bb.split(" ")[0] not in ("ok", "err", "badsig"):
+            why = "a body operation did not return a value or an error (%s / %s / %s)" % (bv[:30], ba[:30], bb[:30])
+        else:
+            want_validate = s_vr == "ok" and n_vr == len(buf)
+            if known is not None and want_validate != known:
+                why = "the single-value validator disagrees with how the body was built"      # (a failure of the streams above, seen here)
+            elif (bv == "ok") != want_validate:
+                why = "validate() %s a body although %s" % ("accepts" if bv == "ok" else "rejects",
+                                                            "not (every value validates and all bytes are used)" if bv == "ok" else "every value validates and all bytes are used")
+            want_all = s_up == "ok" and n_up == len(buf)
+            for name, res in (("unmarshall_all", ba), ("unmarshal_body", bb)):
+                st = res.split(" ")[0]
+                if st == "badsig":
+                    continue                                  # unmarshal_body is handed parsed types: the empty signature has none
+                vals = " ".join(res.split(" ")[2:]) if st == "ok" else ""
+                if why is None and (st == "ok") != want_all:
+                    why = "%s %s a body although %s" % (name, "accepts" if st == "ok" else "rejects",
+                                                        "not (every value decodes and all bytes are used)" if st == "ok" else "every value decodes and all bytes are used")
+                elif why is None and st == "ok" and wg.canon(vals) != wg.canon(v_up):
+                    why = "%s returns other values than the dynamic decoder value by value" % name
+            if why is None and (ba.startswith("ok")) != (bv == "ok"):
+                why = "validate() and unmarshall_all disagree on accepting a body"
+        if why:
+            ctx.disagreements_checked += 1
+            ctx.violation(why, {"lines": lines[5 * ci:5 * ci + 5], "impl": [x[:500] for x in out[5 * ci:5 * ci + 5]], "kind": "glue:" + kind})
+        elif sig and (vr != mout[5 * ci + 3] or (s_up, n_up, wg.canon(v_up)) != (lambda m: (m[0], m[1], wg.canon(m[2])))(split_res(mout[5 * ci + 4]))):
+            ctx.disagreements_checked += 1
+            ctx.tie_broken("correspondence: decoder models and implementation differ (glue stream)",
+                           "%s\nimpl: %s\nmodel: %s" % (lines[5 * ci + 4], out[5 * ci + 3:5 * ci + 5], mout[5 * ci + 3:5 * ci + 5]))
+    return len(cases)
 
 
 def _has_multi_map(toks):
@@ -236,11 +481,14 @@ def _has_multi_map(toks):
 def replay(ctx, body):
     d = body["data"]
     exe = vlib.harness_build(["wire"])["wire"]
+    if any("...(" in l for l in d["lines"]):
+        print("the input was too long to store; re-run ./check C03 %s with VERIF_SEED=%s" % (body.get("tier", "quick"), body.get("seed")))
+        return 2
     _, out, _ = vlib.run_lines(exe, [], d["lines"])
     for l, o, old in zip(d["lines"], out, d["impl"]):
         print(l[:200])
         print("   now :", o[:200])
         print("   then:", old[:200])
-    same = out == d["impl"]
+    same = [o[:len(old)] for o, old in zip(out, d["impl"])] == d["impl"]
     print("REPRODUCED (same outputs as recorded)" if same else "outputs differ from the recorded failing run")
     return 1 if same else 0
